@@ -755,10 +755,11 @@ peg::parser! {
                 BraceExpressionMember::CharSequence { start, end, increment: increment.unwrap_or(1) }
             }
 
-        rule number() -> i64 = sign:number_sign()? n:$(['0'..='9']+) {
+        rule number() -> i64 = sign:number_sign()? n:$(['0'..='9']+) {?
+            // N.B. A number that doesn't fit is not a number as far as we're concerned.
             let sign = sign.unwrap_or(1);
-            let num: i64 = n.parse().unwrap();
-            num * sign
+            let num: i64 = n.parse().or(Err("number"))?;
+            num.checked_mul(sign).ok_or("number")
         }
 
         rule number_sign() -> i64 =
